@@ -23,6 +23,11 @@ FLAGS = ["Standard", "Comment", "Number", "DoxygenComment", "DoxygenBackwardComm
 STD, COM, NUM, DOX, BACK, STR, CHR, PRE = range(8)
 K_STRIP = 'stripComments("/*a*/ /*!<b*/")'
 K_STRIP_FIRST = 'stripComments("x /*!<b*/")'
+# probes: the first cases of every run; they tell which of the repairs props/C31/fix_*.diff the code contains
+PROBES = [("S0", "x /*!<b*/"), ("S0", "y x /*!<b*/"), ("L0", "0xff;"), ("L0", "1e+5f"), ("L0", "a->*b")]
+K_HEX = 'parseNumber("0xff;")'
+K_EXP = 'parseNumber("1e+5f")'
+K_ARROW = 'parseStandardLine("a->*b")'
 
 
 def hx(s):
@@ -130,8 +135,10 @@ def all_strings(alpha, n):
 class Gen:
     """token streams whose records are known by construction"""
 
-    def __init__(self, rng):
+    def __init__(self, rng, fhex=False, fexp=False, farrow=False):
         self.r = rng
+        self.fhex, self.fexp, self.farrow = fhex, fexp, farrow
+        self.ops = list(self.OPS) + (["->*"] if farrow else [])
 
     def ident(self):
         r = self.r
@@ -142,7 +149,18 @@ class Gen:
         r = self.r
         dg = lambda k: "".join(r.choice("0123456789") for _ in range(k))
         dq = lambda k: "'".join(dg(r.randint(1, 3)) for _ in range(k))
-        kind = r.randrange(6)
+        kind = r.randrange(8 if self.fhex else 6)
+        if kind >= 6:  # hexadecimal / binary literals (with fix_hex_binary_literals.diff)
+            if kind == 6:
+                hd = lambda k: "".join(r.choice("0123456789abcdefABCDEF") for _ in range(k))
+                raw = "0" + r.choice("xxX") + "'".join(hd(r.randint(1, 4)) for _ in range(r.randint(1, 2)))
+            else:
+                bd = lambda k: "".join(r.choice("01") for _ in range(k))
+                raw = "0" + r.choice("bbB") + "'".join(bd(r.randint(1, 4)) for _ in range(r.randint(1, 2)))
+            raw += r.choice(["", "", "u", "U", "l", "ul", "LL", "ull", "lu", "uLL"])
+            if r.random() < 0.1:
+                raw += "_" + r.choice(["kg", "m_2"])
+            return raw
         if kind == 0:
             raw, fl = dq(r.randint(1, 3)), False
         elif kind == 1:
@@ -152,7 +170,7 @@ class Gen:
         elif kind == 3:
             sg = r.choice(["", "+", "-"])
             raw, fl = dq(1) + r.choice(["", "." + dg(2)]) + r.choice("eE") + sg + dq(1), None
-            fl = ("." in raw) or sg == "-"
+            fl = ("." in raw) or sg == "-" or self.fexp   # pinned parseNumber: an exponent alone does not make a float
         elif kind == 4:
             raw, fl = dg(r.randint(1, 4)), False
         else:
@@ -203,7 +221,7 @@ class Gen:
                 elif k == 6:
                     v, f = (self.string("'"), STR) if cas else (self.char(), CHR)
                 elif k <= 8:
-                    v, f = r.choice(self.OPS), STD
+                    v, f = r.choice(self.ops), STD
                 else:  # /* */ comment on one line
                     op = r.choice(["/*", "/*", "/*!", "/*!<"])
                     body = r.choice(["", "c", "a b", "x*y", "u / v", "'", '"', "// z"])
@@ -279,10 +297,10 @@ def mutate(rng, s):
     return "".join(b)
 
 
-def gen_cases(c):
-    """list of (mode, text, expected-or-None, family)"""
+def gen_cases(c, fl):
+    """list of (mode, text, expected-or-None, family); fl = which repairs the code contains (generator domain)"""
     rng = c.rng
-    cases = [("S0", "x /*!<b*/", None, "probe"), ("S0", "y x /*!<b*/", None, "probe")]
+    cases = [(m, t, None, "probe") for (m, t) in PROBES]
     if not c.quick():  # length 6 over a smaller alphabet (contains "\\\"" = quote, three backslashes, two quotes)
         for t in itertools.product(ALPHA_C, repeat=6):
             cases.append(("L0", "".join(t), None, "exh6"))
@@ -298,7 +316,7 @@ def gen_cases(c):
         cases.append(("L0", s, None, "exh"))
         if s.count("/") >= 2:
             cases.append(("S0", s, None, "exh"))
-    g = Gen(rng)
+    g = Gen(rng, fl["hex"], fl["exp"], fl["arrow"])
     for i in range(c.pick(12000, 120000)):
         cas = i % 3 == 0
         text, exp = g.stream(cas)
@@ -306,7 +324,8 @@ def gen_cases(c):
         if i % 4 == 0:
             cases.append(("S1" if cas else "S0", text, None, "gen"))
     # hand-picked
-    for s in ['"\\\\\\""', '"a\\\\\\"b" c', '"\\\\" x', "0x17", "0xff", "0b101", "0b1 ", "1'000'000", "1.5e-3f", "a->*b", "a ->b", "x=-1", "x= -1", "x=a-1",
+    for s in ["0x17;", "0xff", "0xFF'ffu", "0XAB", "0b1'0", "0B11;", "0b12", "0x", "0xg", "0x1.8", "0b1e5", "1e5f", "1e+5f", "1E5L", "1e5u", "1e5ll", "a->*", "->*b", "a->* b", "a-> *b",
+              '"\\\\\\""', '"a\\\\\\"b" c', '"\\\\" x', "0x17", "0xff", "0b101", "0b1 ", "1'000'000", "1.5e-3f", "a->*b", "a ->b", "x=-1", "x= -1", "x=a-1",
               "/*a*/ x", "/**/", "/*/", "//", "#define A(x) x+1", "# include <a.hxx>", "#foo", "#", "a # b", "a #b", "a\\", "a\\ b", "'a'", "'\\n'", "'ab'", "'",
               "R\"(x)\"", "aR\"x", "1e5f", "1e-5f", "1.f", "1.e", "1..2", ".5.", "12_km", "12_", "1u", "-1u", "1lu", "1.5l", "1.5ll", "a\x00b", "\x00", "é=1", "~a",
               "/*!<x*/", "a /*!<x*/ b //!y", "/*! d */ a", "/* a\n b \n*/ c", "/*\n\nabc*/", "a /* \n */ #define X", "a /*\n*/-1", "a /*\n*/ -1"]:
@@ -347,10 +366,26 @@ def gen_cases(c):
 def main(c):
     exe = c.cxx("driver", ["driver.cxx"], SRC)
     c.log("driver built")
-    cases = gen_cases(c)
+    # which code is this?  run the probes alone first: the generator only produces the literal forms / operators that the
+    # code at hand is meant to support, the defects themselves are reported through the probes (stable keys)
+    pf = os.path.join(c.work, "probes.txt")
+    with open(pf, "w") as f:
+        f.write("".join("%s %s\n" % (m, hx(t)) for (m, t) in PROBES))
+    rc, out, err = c.run([exe, pf], timeout=120)
+    probe = [parse_out(l) for l in out.splitlines()]
+    if rc != 0 or len(probe) != len(PROBES):
+        c.report("crash:probes", "the real CxxTokenizer crashed on the probes (rc=%d): %s" % (rc, err[-300:]), {"stderr": err[-2000:]}, False)
+        return
+    vals = lambda r: [t[0] for t in r] if isinstance(r, list) else r
+    fl = {"strip": isinstance(probe[0], list) and len(probe[0]) == 1 and probe[0][0][4] == "b",
+          "hex": vals(probe[2]) == ["0xff", ";"] and probe[2][0][1] == NUM,
+          "exp": vals(probe[3]) == ["1e+5f"],
+          "arrow": vals(probe[4]) == ["a", "->*", "b"]}
+    c.notes.append("code variant selected by probing the real code: %s (True = contains the repair)" % fl)
+    cases = gen_cases(c, fl)
     if c.replay and c.replay.get("replay", {}).get("input_hex") is not None:
         rp = c.replay["replay"]
-        cases = cases[:2] + [(rp.get("mode", "L0"), unhx(rp["input_hex"]), None, "replay")]
+        cases = cases[:len(PROBES)] + [(rp.get("mode", "L0"), unhx(rp["input_hex"]), None, "replay")]
     cf = os.path.join(c.work, "cases.txt")
     with open(cf, "w") as f:
         f.write("".join("%s %s\n" % (m, hx(s)) for (m, s, _, _) in cases))
@@ -364,12 +399,10 @@ def main(c):
                  "the real CxxTokenizer crashed or the driver failed (rc=%d, %d/%d results) on input %s: %s" % (rc, len(real), len(cases), show(cases[i][1])[:300], err[-300:]),
                  {"mode": cases[i][0], "input_hex": hx(cases[i][1]), "stderr": err[-3000:]}, True)
         return
-    # which stripComments is this?  pinned: a backward doxygen comment is not attached to a token that is the first one
-    r0 = parse_out(real[0])
-    fx = isinstance(r0, list) and len(r0) == 1 and r0[0][4] == "b"
-    c.notes.append("stripComments variant selected by probing the real code: %s" % ("with fix_strip_backward.diff" if fx else "pinned"))
+    fx = fl["strip"]
     ml = c.ocaml_extract("c31", MODEL, EXTRACT, "driver.ml")
-    rc, out, err = c.run([ml, cf, "1" if fx else "0"], timeout=1500)
+    b = lambda k: "1" if fl[k] else "0"
+    rc, out, err = c.run([ml, cf, b("strip"), b("hex"), b("exp"), b("arrow")], timeout=1500)
     model = out.splitlines()
     c.log("model run")
     if rc != 0 or len(model) != len(cases):
@@ -461,6 +494,19 @@ def main(c):
                      {"mode": "S0", "input_hex": hx(witness[0][1]), "input": show(witness[0][1]), "asan": err[:3000], "others": [show(w[1])[:100] for w in witness[1:6]]}, True)
         else:
             c.notes.append("the model predicts an out-of-bounds read of stripComments on %d inputs but AddressSanitizer did not report it (rc=%d)" % (len(ub), rc))
+    if not fl["hex"]:
+        c.report(K_HEX, "CxxTokenizer::parseNumber rejects hexadecimal and binary integer literals unless they end the line, and hexadecimal digits 8 9 a-f A-F "
+                 "altogether: \"0xff;\" gives %s (expected the Number 0xff then ;); \"0x17;\" throws, \"0xff\" throws, \"0x19\" throws "
+                 "(is_hex stops at '7', the digit loop only takes decimal digits, and any character after the literal raises 'invalid hexadecimal integer')"
+                 % (show(real[2]) if real[2] == "ERR" else real[2]), {"mode": "L0", "input_hex": hx(PROBES[2][1]), "input": show(PROBES[2][1]), "real": real[2]}, True)
+    if not fl["exp"]:
+        c.report(K_EXP, "CxxTokenizer::parseNumber does not treat a literal with an exponent as a floating-point literal unless it has a dot or a negative "
+                 "exponent: \"1e+5f\" gives the tokens %s (expected the single Number 1e+5f; \"1e-5f\" is one token)" % (vals(probe[3]),),
+                 {"mode": "L0", "input_hex": hx(PROBES[3][1]), "input": show(PROBES[3][1]), "real": real[3]}, True)
+    if not fl["arrow"]:
+        c.report(K_ARROW, "CxxTokenizer::parseStandardLine never produces the operator ->* (the test looks at the character after '-' instead of the one "
+                 "after '->'): \"a->*b\" gives the tokens %s (expected a, ->*, b)" % (vals(probe[4]),),
+                 {"mode": "L0", "input_hex": hx(PROBES[4][1]), "input": show(PROBES[4][1]), "real": real[4]}, True)
     if not fx:
         c.notes.append("pinned stripComments also drops a backward doxygen comment whose documented token is the first token "
                        "(\"x /*!<b*/\": comment of x empty; \"y x /*!<b*/\": attached) -- same statement, mirrored by the model, fixed by the same patch")
